@@ -482,6 +482,7 @@ class Executor:
                     continue
                 ot = as_val(o)
                 self.check_store_allowed(s, ot, tgt)
+                self.on_store(s, ot)
                 h = Heap(self, s)
                 name = T.attr_heap(tgt.attr)
                 h.set(name, z3.Store(h.arr(name), ot, as_val(v)))
@@ -546,7 +547,13 @@ class Executor:
             return outs
         raise Unsupported(f"store into container kind {kind}")
 
+    def on_store(self, st: State, o):
+        hook = getattr(self.contract, "on_store", None)
+        if hook is not None:
+            hook(self, st, o)
+
     def dict_store(self, st: State, o, kt, vt):
+        self.on_store(st, o)
         h = Heap(self, st)
         had = h.dhas(o, kt)
         h.set("dlen", z3.Store(h.arr("dlen"), o, h.dlen(o) + z3.If(had, 0, 1)))
@@ -948,6 +955,7 @@ class Executor:
                     outs.append(Outcome("raise", missing, self.new_obj(missing, K("KeyError"), "exc")))
                 s2.assume(h.dhas(ot, kt))
                 self.check_store_allowed(s2, ot, node)
+                self.on_store(s2, ot)
                 h.set("dlen", z3.Store(h.arr("dlen"), ot, h.dlen(ot) - 1))
                 h.set("dhas", z3.Store(h.arr("dhas"), ot, z3.Store(h.arr("dhas")[ot], kt, False)))
                 outs.append(Outcome("normal", s2))
